@@ -157,7 +157,9 @@ func (f *FuncCtx) box(v Val, iface types.Type) Val {
 	vs := f.sortOfVal(v)
 	fn := "box." + sanitize(is) + "." + sanitize(vs)
 	f.S.declare(fn, fmt.Sprintf("(declare-fun %s (%s) %s)", fn, vs, is))
-	return Val{T: fmt.Sprintf("(%s %s)", fn, v.T), Typ: iface}
+	inner := v
+	inner.Unboxed = nil
+	return Val{T: fmt.Sprintf("(%s %s)", fn, v.T), Typ: iface, Unboxed: &inner}
 }
 
 func (f *FuncCtx) boolVal(t string) Val { return Val{T: t, Typ: types.Typ[types.Bool]} }
@@ -732,7 +734,11 @@ func (f *FuncCtx) indexVal(x Val, idx ast.Expr, env *Env, at ast.Node) Val {
 		i := f.coerce(f.expr(idx, env), types.Typ[types.Int])
 		f.safety("index", env, fmt.Sprintf("(and (<= 0 %s) (< %s %d))", i.T, i.T, u.Len()), at)
 		if _, ok := byteArray(u); ok {
-			return Val{T: fmt.Sprintf("(at_%s %s %s)", f.S.SortOf(x.Typ), x.T, i.T), Typ: u.Elem()}
+			v := Val{T: fmt.Sprintf("(at_%s %s %s)", f.S.SortOf(x.Typ), x.T, i.T), Typ: u.Elem()}
+			if f.spec == nil && !env.dead {
+				f.assume(env, fmt.Sprintf("(and (<= 0 %s) (<= %s 255))", v.T, v.T))
+			}
+			return v
 		}
 		return Val{T: fmt.Sprintf("(select %s %s)", x.T, i.T), Typ: u.Elem()}
 	case *types.Pointer:
@@ -742,7 +748,14 @@ func (f *FuncCtx) indexVal(x Val, idx ast.Expr, env *Env, at ast.Node) Val {
 		}
 	case *types.Map:
 		k := f.coerce(f.expr(idx, env), u.Key())
-		return Val{T: f.mapGet(x, k, u), Typ: u.Elem()}
+		v := Val{T: f.mapGet(x, k, u), Typ: u.Elem()}
+		if f.spec == nil && !env.dead {
+			// a value loaded from a map is a value of the element type (non-negative slice length, integer range)
+			for _, c := range f.typeInvCheap(v.T, u.Elem()) {
+				f.assume(env, c)
+			}
+		}
+		return v
 	case *types.Basic:
 		if u.Info()&types.IsString != 0 {
 			i := f.expr(idx, env)
@@ -1392,6 +1405,28 @@ func (f *FuncCtx) convert(x Val, t types.Type) Val {
 					return Val{T: fmt.Sprintf("(some %s)", arr), Typ: t}
 				}
 				return Val{T: arr, Typ: t}
+			}
+		}
+	}
+	// struct -> struct of another named type with the same field sequence (Go allows the conversion only then):
+	// the target's constructor applied to the source's fields, field by field
+	if ssrt, sst, ok1 := f.S.isDatatypeStruct(x.Typ); ok1 {
+		if tsrt, tst, ok2 := f.S.isDatatypeStruct(t); ok2 && sst.NumFields() == tst.NumFields() {
+			args := make([]string, 0, sst.NumFields())
+			same := true
+			for i := 0; i < sst.NumFields(); i++ {
+				sf, tf := sst.Field(i), tst.Field(i)
+				if f.S.SortOf(sf.Type()) != f.S.SortOf(tf.Type()) {
+					same = false
+					break
+				}
+				args = append(args, fmt.Sprintf("(%s %s)", f.S.fieldAcc(ssrt, sf.Name()), x.T))
+			}
+			if same {
+				if len(args) == 0 {
+					return Val{T: "mk_" + tsrt, Typ: t}
+				}
+				return Val{T: fmt.Sprintf("(mk_%s %s)", tsrt, strings.Join(args, " ")), Typ: t}
 			}
 		}
 	}
